@@ -882,6 +882,12 @@ def run(tier, seed):
     # glue code (DESIGN 11.7, third round): the body of the loop over the overrides in TestSettings::new (first override
     # that sets a setting wins, for each of the eleven settings), read from the source
     gen_tie.gate(chk, ['override_loop_body', 'display_setting'], gate, family="glue")
+    # fifth round: profile inheritance -- NextestConfigImpl::get_profile (no table besides the default profile for the
+    # name "default" only) and the accessors of EvaluatableProfile (the selected table's value, else the default's)
+    gen_tie.gate(chk, ['get_profile', 'profile_accessor_retries', 'profile_accessor_slow_timeout',
+                       'profile_accessor_leak_timeout', 'profile_accessor_threads_required',
+                       'profile_accessor_test_threads', 'profile_accessor_success_output',
+                       'profile_accessor_failure_output'], gate, family="glue")
     checker_cmd = "make -C coq Properties/C06.vo && coqc gen/assump_C06.v (Print Assumptions)"
     binary, err = vlib.build_harness()
     if binary is None:
